@@ -5,13 +5,13 @@
    The property as stated is REFUTED by the faithful model: several region classes of a committed,
    closed file are read and used but compared with nothing (known_class below).  What is proved:
    - for the classes guarded by a hash (TOC bytes + commit footer on the read_toc path, memory-card /
-     mesh tracks): every change is detected, given collision-freeness on the two byte strings involved;
-   - for the unguarded classes: `_refuted` witnesses, and for frame payloads the universal statement
-     that EVERY change is served and that verify(deep) cannot see it;
+     mesh tracks, frame payloads): every change is detected, given collision-freeness on the two byte strings involved;
+   - frame payloads (plain and zstd): guarded by frame.checksum since /repo 55d5bb8 -- every change of the
+     stored bytes is an error on read, and verify(deep) = Passed implies every active payload reads as
+     committed (the theorems about the code before the fix are kept under `_unchecked_` names);
+   - for the remaining unguarded classes: `_refuted` witnesses;
    - the detection table (Model/Detect.v `table`) predicts a silent difference in no class outside
      known_class (`_outside_known`);
-   - the minimal repair (compare frame.checksum in read_frame_payload_bytes, and in verify(deep)) closes
-     the payload classes (`_fixed_` theorems, separately named definitions).
    Partial: Tantivy / vector-index / sketch decoders and serde's behaviour on damaged input are observed
    by the correspondence run, not modelled. *)
 From MV Require Import Base.Prelude Model.Footer Model.TimeIndex Model.Wal Model.Bincode Model.Toc Model.Detect Proofs.DetectProofs.
@@ -71,30 +71,59 @@ Theorem C20_track_checksum_detects :
 Proof. exact load_track_detects. Qed.
 Print Assumptions C20_track_checksum_detects.
 
-(* ---------------------------------------------------------------- frame payloads: no check *)
+(* ---------------------------------------------------------------- frame payloads (classes payload-plain,
+   payload-zstd, payload-inactive): guarded by frame.checksum since 55d5bb8 *)
 
-(* (4) plain frame: on ANY file of the same length the bytes found in the frame's range are returned *)
-Theorem C20_payload_plain_served :
-  forall (unzstd : bytes -> option bytes) ctx (file file' : bytes) fr,
-    length file' = length file ->
-    validate_frame_bounds ctx (N.of_nat (length file)) fr = Ok tt ->
-    f_zstd fr = false -> (f_canon_len fr = Some (f_len fr) \/ f_canon_len fr = None) ->
-    frame_canonical_bytes unzstd ctx file' fr = Ok (slice file' (N.to_nat (f_off fr)) (N.to_nat (f_len fr))).
-Proof. exact plain_payload_served. Qed.
-Print Assumptions C20_payload_plain_served.
+(* (4) THE property for payloads: the stored bytes of a frame that read without error on the clean and on
+       the faulted file are equal (for zstd frames too: the stored, compressed bytes are what is hashed),
+       and then the canonical payload served is the committed one. *)
+Theorem C20_payload_read_detects :
+  forall (H : bytes -> bytes) ctx file file' fr raw raw',
+    read_frame_payload_bytes H ctx file fr = Ok raw ->
+    read_frame_payload_bytes H ctx file' fr = Ok raw' ->
+    (H raw' = H raw -> raw' = raw) -> raw' = raw.
+Proof. exact payload_read_detects. Qed.
+Print Assumptions C20_payload_read_detects.
 
-(* (4') zstd frame: whatever the decoder produces is returned if it has the recorded length *)
-Theorem C20_payload_zstd_served :
-  forall (unzstd : bytes -> option bytes) ctx (file' : bytes) fr d,
-    validate_frame_bounds ctx (N.of_nat (length file')) fr = Ok tt -> f_zstd fr = true ->
-    unzstd (slice file' (N.to_nat (f_off fr)) (N.to_nat (f_len fr))) = Some d ->
-    (f_canon_len fr = Some (N.of_nat (length d)) \/ f_canon_len fr = None) ->
-    frame_canonical_bytes unzstd ctx file' fr = Ok d.
-Proof. exact zstd_payload_served. Qed.
-Print Assumptions C20_payload_zstd_served.
+Theorem C20_payload_detects :
+  forall (H : bytes -> bytes) (unzstd : bytes -> option bytes) ctx file file' fr raw raw' d',
+    read_frame_payload_bytes H ctx file fr = Ok raw ->
+    read_frame_payload_bytes H ctx file' fr = Ok raw' ->
+    (H raw' = H raw -> raw' = raw) ->
+    frame_canonical_bytes H unzstd ctx file' fr = Ok d' ->
+    frame_canonical_bytes H unzstd ctx file fr = Ok d'.
+Proof. exact payload_detects. Qed.
+Print Assumptions C20_payload_detects.
 
-(* (5) verify(deep) reads the log region and the index area, never payload bytes: two files that differ
-       only inside a range outside those give verify the same input, hence the same verdict *)
+(* (4') a changed stored payload is answered with an error, never with data *)
+Theorem C20_payload_change_is_error :
+  forall (H : bytes -> bytes) (unzstd : bytes -> option bytes) ctx file file' fr raw,
+    read_frame_payload_bytes H ctx file fr = Ok raw ->
+    slice file' (N.to_nat (f_off fr)) (N.to_nat (f_len fr)) <> raw ->
+    (H (slice file' (N.to_nat (f_off fr)) (N.to_nat (f_len fr))) = H raw ->
+     slice file' (N.to_nat (f_off fr)) (N.to_nat (f_len fr)) = raw) ->
+    forall d, frame_canonical_bytes H unzstd ctx file' fr <> Ok d.
+Proof. exact payload_change_is_error. Qed.
+Print Assumptions C20_payload_change_is_error.
+
+(* (5) verify(deep) = Passed on a file implies that every ACTIVE frame with a non-empty payload reads there
+       exactly as on the clean file (FramePayloadChecksums): "verify Passed but a payload read differs" is
+       impossible for active frames. *)
+Theorem C20_verify_detects :
+  forall (H : bytes -> bytes) (unzstd : bytes -> option bytes) (lex_ok vec_ok : bytes -> bool) file file' l fr raw,
+    verify_overall true (vstate_of H lex_ok vec_ok file' l) = Passed ->
+    In fr (l_frame_list l) -> f_active fr = true -> f_len fr <> 0 ->
+    read_frame_payload_bytes H (l_ctx l) file fr = Ok raw ->
+    (forall x, H x = H raw -> x = raw) ->
+    read_frame_payload_bytes H (l_ctx l) file' fr = Ok raw /\
+    frame_canonical_bytes H unzstd (l_ctx l) file' fr = frame_canonical_bytes H unzstd (l_ctx l) file fr.
+Proof. exact verify_detects. Qed.
+Print Assumptions C20_verify_detects.
+
+(* (5') what verify(deep) still cannot see: a change confined to a range outside the log region, the
+       indexes and the payloads of the active frames (payload of a deleted / superseded frame, unreferenced
+       bytes, log slack) gives verify the same input.  For an inactive frame's payload that is consistent
+       with the property: a read of that frame goes through read_frame_payload_bytes and fails ((4')). *)
 Theorem C20_verify_blind_outside_layout :
   forall (H : bytes -> bytes) (lex_ok vec_ok : bytes -> bool) (pre mid mid' post : bytes) l deep,
     length mid' = length mid ->
@@ -109,31 +138,49 @@ Theorem C20_verify_passed_iff :
 Proof. exact verify_passed_iff. Qed.
 Print Assumptions C20_verify_passed_iff.
 
+(* (5'') the checked read serves nothing the code before 55d5bb8 would not have served *)
+Theorem C20_checked_refines :
+  forall (H : bytes -> bytes) (unzstd : bytes -> option bytes) ctx file fr d,
+    frame_canonical_bytes H unzstd ctx file fr = Ok d -> frame_canonical_bytes_unchecked unzstd ctx file fr = Ok d.
+Proof. exact checked_refines. Qed.
+Print Assumptions C20_checked_refines.
+
 (* ---- a concrete committed file: 48-byte log region (empty), one plain frame of 4 bytes, a time index
    with one entry (timestamp 100, frame 0).  toyH is a stand-in hash (the theorems hold for every H). *)
 Definition toyH (x : bytes) : bytes := repeat (fold_left N.add x 0 mod 256) 32.
 Definition no_zstd (_ : bytes) : option bytes := None.
 Definition yes (_ : bytes) : bool := true.
 Definition sample_file : bytes := repeat 0 48 ++ [255; 254; 7; 8] ++ track_image [(100%Z, 0)].
-Definition sample_frame : frame := mkFrame 48 4 false (Some 4) (toyH [255; 254; 7; 8]).
+Definition sample_frame : frame := mkFrame 48 4 false (Some 4) (toyH [255; 254; 7; 8]) true.
 Definition sample_ctx : N * N * N := (0, 48, 80).
-Definition sample_layout : layout := mkLayout 0 48 0 (Some (52, 28, 1)) None None 1.
+Definition sample_layout : layout := mkLayout 0 48 0 (Some (52, 28, 1)) None None sample_ctx [sample_frame].
 Definition verify_sample (file : bytes) := verify_overall true (vstate_of toyH yes yes file sample_layout).
 
-(* (6) REFUTED, class payload-plain: one changed payload byte; open-time checks do not involve it, the
-       read returns different data, verify(deep) reports Passed on both files. *)
-Theorem C20_payload_refuted :
-  exists file file' fr ctx,
-    length file' = length file /\
-    verify_sample file = Passed /\ verify_sample file' = Passed /\
-    exists d d', frame_canonical_bytes no_zstd ctx file fr = Ok d /\
-                 frame_canonical_bytes no_zstd ctx file' fr = Ok d' /\ d <> d'.
-Proof.
-  exists sample_file, (patch_at sample_file 49 [9]), sample_frame, sample_ctx.
-  split; [reflexivity|]. split; [vm_compute; reflexivity|]. split; [vm_compute; reflexivity|].
-  exists [255; 254; 7; 8], [255; 9; 7; 8]. split; [vm_compute; reflexivity|]. split; [vm_compute; reflexivity|]. discriminate.
-Qed.
-Print Assumptions C20_payload_refuted.
+(* (6) what 55d5bb8 closed (finding F-C20-1/2, fixed): before it, on ANY file of the same length the bytes
+       found in a plain frame's range were returned, and verify(deep) had no payload check; on the sample
+       file one changed payload byte was served with verify = Passed.  With the fix the same read is
+       E_FR_SUM and verify(deep) is Failed. *)
+Theorem C20_unchecked_payload_plain_served :
+  forall (unzstd : bytes -> option bytes) ctx (file file' : bytes) fr,
+    length file' = length file ->
+    validate_frame_bounds ctx (N.of_nat (length file)) fr = Ok tt ->
+    f_zstd fr = false -> (f_canon_len fr = Some (f_len fr) \/ f_canon_len fr = None) ->
+    frame_canonical_bytes_unchecked unzstd ctx file' fr = Ok (slice file' (N.to_nat (f_off fr)) (N.to_nat (f_len fr))).
+Proof. exact unchecked_plain_payload_served. Qed.
+Print Assumptions C20_unchecked_payload_plain_served.
+
+Theorem C20_unchecked_payload_refuted_now_detected :
+  let file := sample_file in let file' := patch_at sample_file 49 [9] in
+  (* before the fix *)
+  frame_canonical_bytes_unchecked no_zstd sample_ctx file sample_frame = Ok [255; 254; 7; 8] /\
+  frame_canonical_bytes_unchecked no_zstd sample_ctx file' sample_frame = Ok [255; 9; 7; 8] /\
+  verify_overall_unchecked true (vstate_of toyH yes yes file' sample_layout) = Passed /\
+  (* with the fix *)
+  frame_canonical_bytes toyH no_zstd sample_ctx file sample_frame = Ok [255; 254; 7; 8] /\
+  frame_canonical_bytes toyH no_zstd sample_ctx file' sample_frame = Err E_FR_SUM /\
+  verify_sample file = Passed /\ verify_sample file' = Failed.
+Proof. cbv zeta. repeat split; vm_compute; reflexivity. Qed.
+Print Assumptions C20_unchecked_payload_refuted_now_detected.
 
 (* (7) REFUTED, class time-index: the frame id of an entry changes; read_track's checks (magic, length,
        order) pass, the manifest checksum is never compared, verify(deep) = Passed. *)
@@ -206,33 +253,20 @@ Theorem C20_table_truncation_detected :
 Proof. exact table_trunc_ro_error. Qed.
 Print Assumptions C20_table_truncation_detected.
 
-(* ---------------------------------------------------------------- the repair (separate definitions) *)
+(* (10'') a changed payload of an active frame: the only predicted observation is "reads fail, verify Failed" *)
+Theorem C20_table_active_payload_detected :
+  forall c k o, (c = PayPlain \/ c = PayZstd) -> (k = Flip \/ k = Zero) -> In o (table c k) -> o = (VError, VError, 1).
+Proof. exact table_active_payload_detected. Qed.
+Print Assumptions C20_table_active_payload_detected.
 
-(* (11) with the checksum comparison in read_frame_payload_bytes: two files on which a frame reads
-        without error give the same data (H collision-free) *)
-Theorem C20_fixed_payload_detects :
-  forall (H : bytes -> bytes) (unzstd : bytes -> option bytes) ctx file file' fr d d',
-    frame_canonical_bytes_fixed H unzstd ctx file fr = Ok d ->
-    frame_canonical_bytes_fixed H unzstd ctx file' fr = Ok d' ->
-    (forall x y, H x = H y -> x = y) -> d' = d.
-Proof. exact fixed_payload_detects. Qed.
-Print Assumptions C20_fixed_payload_detects.
-
-(* (12) with the frame loop in verify(deep): Passed on the faulted file implies every frame reads as committed *)
-Theorem C20_fixed_verify_detects :
-  forall (H : bytes -> bytes) (unzstd : bytes -> option bytes) ctx file file' frames s fr d,
-    (forall x y, H x = H y -> x = y) ->
-    verify_overall_fixed H unzstd ctx file' frames s = Passed -> In fr frames ->
-    frame_canonical_bytes_fixed H unzstd ctx file fr = Ok d ->
-    frame_canonical_bytes_fixed H unzstd ctx file' fr = Ok d.
-Proof. exact fixed_verify_detects. Qed.
-Print Assumptions C20_fixed_verify_detects.
-
-Theorem C20_fixed_refines :
-  forall (H : bytes -> bytes) (unzstd : bytes -> option bytes) ctx file fr d,
-    frame_canonical_bytes_fixed H unzstd ctx file fr = Ok d -> frame_canonical_bytes unzstd ctx file fr = Ok d.
-Proof. exact fixed_refines. Qed.
-Print Assumptions C20_fixed_refines.
+(* (10c) REFUTED at the table level, class payload-chunk (known): the stored bytes of a chunk are guarded as
+   in (4)-(5) and verify(deep) is never Passed, but search's resolve_chunk_context does
+   `if let Ok(payloads) = self.document_chunk_payloads(&parent)` and on the checksum error falls back to
+   frame.search_text: hits on that document's chunks carry a different text / range, without an error. *)
+Theorem C20_table_chunk_payload_verify_fails :
+  forall k o, (k = Flip \/ k = Zero) -> In o (table PayChunk k) -> snd o = 1%N.
+Proof. exact table_chunk_payload_verify_fails. Qed.
+Print Assumptions C20_table_chunk_payload_verify_fails.
 
 (* ---------------------------------------------------------------- non-vacuity *)
 Definition s_toc : bytes := [1; 2; 3; 4; 5].
@@ -241,8 +275,10 @@ Definition s_pre : bytes := repeat 9 20.
 Definition s_file : bytes := s_pre ++ s_toc ++ footer_encode s_footer.
 
 (* the clean file passes read_toc; a flipped TOC byte, a flipped hash byte and a flipped length byte do not;
-   the repaired frame read accepts the clean sample file and rejects the faulted one; verify with the frame
-   loop fails on it *)
+   the frame read accepts the clean sample file; an inactive frame's changed payload fails on read but is
+   outside verify's loop (verify Passed, by (5') with the payload range outside the layout) *)
+Definition inactive_frame : frame := mkFrame 48 4 false (Some 4) (toyH [255; 254; 7; 8]) false.
+Definition inactive_layout : layout := mkLayout 0 48 0 (Some (52, 28, 1)) None None sample_ctx [inactive_frame].
 Example C20_nonvacuous :
   read_toc toyH s_file 20 = Ok s_toc /\
   read_toc toyH (patch_at s_file 21 [3]) 20 = Err E_TOC_HASH /\
@@ -250,10 +286,9 @@ Example C20_nonvacuous :
   read_toc toyH (patch_at s_file 33 [6]) 20 = Err E_TOC_LEN /\
   load_track toyH s_file 20 5 (toyH s_toc) = Ok s_toc /\
   load_track toyH (patch_at s_file 21 [3]) 20 5 (toyH s_toc) = Err E_TRACK_SUM /\
-  frame_canonical_bytes_fixed toyH no_zstd sample_ctx sample_file sample_frame = Ok [255; 254; 7; 8] /\
-  frame_canonical_bytes_fixed toyH no_zstd sample_ctx (patch_at sample_file 49 [9]) sample_frame = Err E_FR_SUM /\
-  verify_overall_fixed toyH no_zstd sample_ctx sample_file [sample_frame] (vstate_of toyH yes yes sample_file sample_layout) = Passed /\
-  verify_overall_fixed toyH no_zstd sample_ctx (patch_at sample_file 49 [9]) [sample_frame]
-    (vstate_of toyH yes yes (patch_at sample_file 49 [9]) sample_layout) = Failed /\
-  layout_outside sample_layout 48 52 = true.
+  read_frame_payload_bytes toyH sample_ctx sample_file sample_frame = Ok [255; 254; 7; 8] /\
+  layout_outside sample_layout 48 52 = false /\
+  layout_outside inactive_layout 48 52 = true /\
+  frame_canonical_bytes toyH no_zstd sample_ctx (patch_at sample_file 49 [9]) inactive_frame = Err E_FR_SUM /\
+  verify_overall true (vstate_of toyH yes yes (patch_at sample_file 49 [9]) inactive_layout) = Passed.
 Proof. repeat split; vm_compute; reflexivity. Qed.
